@@ -76,6 +76,7 @@ type lcEnv struct {
 	failed   bool
 
 	consoleText string
+	noID        map[string]int
 	shared      [8]log.Field
 	recChecks   []lcRecCheck
 }
@@ -219,6 +220,12 @@ func init() {
 	lcEntries = []lcEntry{
 		{"Trace", log.TraceLevel, true, func(c context.Context, t *log.Tag, id int64, n *int64) { log.Trace(c, t, gen(id, n)) }},
 		{"Debug", log.DebugLevel, true, func(c context.Context, t *log.Tag, id int64, n *int64) { log.Debug(c, t, gen(id, n)) }},
+		{"Trace(empty)", log.TraceLevel, true, func(c context.Context, t *log.Tag, id int64, n *int64) {
+			log.Trace(c, t, func() []log.Field { atomic.AddInt64(n, 1); return nil })
+		}},
+		{"Debug(empty)", log.DebugLevel, true, func(c context.Context, t *log.Tag, id int64, n *int64) {
+			log.Debug(c, t, func() []log.Field { atomic.AddInt64(n, 1); return []log.Field{} })
+		}},
 		{"Tracef", log.TraceLevel, false, func(c context.Context, t *log.Tag, id int64, n *int64) { log.Tracef(c, t, "id=%d", id) }},
 		{"Debugf", log.DebugLevel, false, func(c context.Context, t *log.Tag, id int64, n *int64) { log.Debugf(c, t, "id=%d", id) }},
 		{"Info", log.InfoLevel, false, func(c context.Context, t *log.Tag, id int64, n *int64) {
@@ -355,7 +362,7 @@ func cmdLifecycle(f hx.Flags, r *hx.Result) {
 func runHistory(r *hx.Result, rng *rand.Rand, console *sys.Console, tmp string, h *lcHist, async bool) {
 	thetas := []log.Level{log.TraceLevel, log.DebugLevel, log.InfoLevel, log.ErrorLevel, log.FatalLevel}
 	e := &lcEnv{r: r, rng: rng, console: console, async: async, tmp: tmp,
-		tags: map[string]*log.Tag{}, handles: map[string]*log.LoggerWrapper{}}
+		tags: map[string]*log.Tag{}, handles: map[string]*log.LoggerWrapper{}, noID: map[string]int{}}
 	// a history with lazy steps needs theta between TRACE and INFO to have candidates on both sides
 	e.theta = thetas[rng.Intn(len(thetas))]
 	e.upper = log.MaxLevel
@@ -567,6 +574,18 @@ func (e *lcEnv) stepLog(si int, s lcStep) {
 		if d != want {
 			e.viol("lazy-count:"+tern(emitted, "emitted", "disabled"), "step %d: %s (%s): generator invoked %d times, specification: %d", si, en.name, tern(emitted, "emitted", "disabled"), d, want)
 		}
+	}
+	if strings.HasSuffix(en.name, "(empty)") {
+		// the event carries no field of its own, hence no id: the hook counts above decide; additionally the
+		// number of records without id at the destination must have grown by one when emitted
+		if emitted && exp.Dest != "console" && !e.async {
+			cnt, _ := lcFind(lcSinks[exp.Dest][:1], -1, false)
+			e.noID[exp.Dest]++
+			if cnt[0] != e.noID[exp.Dest] {
+				e.viol("event-delivery:empty-generator", "step %d: %s: an enabled event whose generator returned no fields was not delivered (%d records without id at %s, want %d)", si, en.name, cnt[0], exp.Dest, e.noID[exp.Dest])
+			}
+		}
+		return
 	}
 	e.pending = append(e.pending, lcPending{id: id, dest: exp.Dest, step: si, what: en.name})
 	// content of the record (checked where it can be seen synchronously or after flush)
